@@ -44,7 +44,7 @@ ALPHABET = [
     ("SO4-2", "[O-]S(=O)(=O)[O-]"),  # charged, -2
     ("bad", "C(C"),  # invalid SMILES
 ]
-ENUM_REMOVES = ["H2O", "C2H6O", "water", "NH4+", "nope"]
+ENUM_REMOVES = ["H2O", "C2H6O", "water", "NH4+", "nope", "h2o"]  # the last: no label, but one up to letter case
 ENUM_BULKS = [
     [],
     list(range(8)),
@@ -59,6 +59,8 @@ EXTRA = [
     ("H2O2", "OO"), ("HCl", "Cl"), ("NaCl", "[Na+].[Cl-]"), ("D2O", "[2H]O[2H]"), ("C6H6", "c1ccccc1"),
     ("C6H6", "C1=CC=CC=C1"), ("U", "[U]"), ("Og", "[Og]"), ("N3-", "[N-]=[N+]=[N-]"), ("azide", "[N-]=[N+]=[N-]"),
     ("empty", ""), ("H+", "[H+]"), ("H2", "[H][H]"), ("Fe+3", "[Fe+3]"), ("zwitterion", "C[N+](C)(C)CC([O-])=O"),
+    # labels that differ only in letter case or surrounding blanks are different labels
+    ("CO", "[C-]#[O+]"), ("Co", "[Co]"), ("HF", "F"), ("Hf", "[Hf]"), ("NO", "[N]=O"), ("No", "[No]"), ("SI", "S=[IH]"), ("Si", "[Si]"),
     ("bad2", "c1ccccc"), ("bad3", "xyz"), ("bad4", "C(=O)(=O)(=O)C"), ("bad5", "[NH5]"), ("", "CC"), ("H2O", "xx"),
 ]
 OUTSIDE_DOMAIN = [("R-CH3", "*C")]  # dummy atom: RDKit parses it, the decomposer counts it under the key Q (see NOTES)
@@ -455,9 +457,12 @@ def gen_history(ctx, start_db, max_len):
             ops.append(op_bulk(cs))
         else:
             if added and rng.random() < 0.6:
-                ops.append(op_remove(rng.choice(added)))
+                f = rng.choice(added)
             else:
-                ops.append(op_remove(rng.choice(formulas)))
+                f = rng.choice(formulas)
+            if rng.random() < 0.3:  # a name that is a label only up to letter case / blanks
+                f = rng.choice([f.lower(), f.upper(), f.swapcase(), " " + f, f + " ", f.capitalize()])
+            ops.append(op_remove(f))
     return ops
 
 
